@@ -157,6 +157,9 @@ func (e *Engine) newGen(fn *ssa.Function, ctr *Contract, loopMod map[*ssa.BasicB
 		if ctr.NoSafety {
 			g.options.safety = false
 		}
+		if ctr.AstValid {
+			g.astValid = true
+		}
 	}
 	return g
 }
@@ -286,7 +289,7 @@ func (g *gen) heapHavoc(key string) {
 			}
 		}
 	}
-	if strings.HasPrefix(key, "C|") && len(g.stableCells) > 0 && !g.loopHavoc {
+	if strings.HasPrefix(key, "C|") && len(g.stableCells) > 0 {
 		prev := g.cur.heap[key]
 		if prev == "" {
 			if _, known := g.heapSort[key]; known {
@@ -300,7 +303,7 @@ func (g *gen) heapHavoc(key string) {
 					return
 				}
 				for _, sc := range g.stableCells {
-					if sc.key == key {
+					if sc.key == key && (!g.loopHavoc || sc.once) {
 						g.assumeGlobal(eq(app("select", cur, sc.ref), app("select", prev, sc.ref)))
 					}
 				}
@@ -308,13 +311,18 @@ func (g *gen) heapHavoc(key string) {
 		}
 	}
 	var oldF, nowF string
-	if strings.HasPrefix(key, "F|") && !g.loopHavoc && g.e.writtenKeys != nil && !g.e.writtenKeys[key] && isRepoKey(key) {
+	if strings.HasPrefix(key, "F|") && g.e.writtenKeys != nil && !g.e.writtenKeys[key] && isRepoKey(key) {
 		if cur, ok := g.cur.heap[key]; ok {
 			oldF = cur
 		} else if _, known := g.heapSort[key]; known {
 			oldF = "H0_" + sanitize(key)
 		}
 		nowF = g.now()
+		if g.loopHavoc {
+			// at a loop cut the function itself may be constructing objects it allocated earlier: only objects that
+			// existed when the function was entered are certainly not under construction here
+			nowF = g.now0()
+		}
 	}
 	defer func() {
 		if oldF != "" {
@@ -901,6 +909,12 @@ func (g *gen) newAlloc(prefix string) string {
 	g.assumeGlobal(and(app(">", n, "0"), app(">", g.birth(n), g.now())))
 	g.heapSet("NOW", "Int", g.birth(n))
 	g.allocs = append(g.allocs, n)
+	if g.astValid {
+		// an object allocated here is neither a node nor a list of the analysed tree
+		g.declTnode()
+		g.declareFun("astlist", []string{"Int"}, "Bool")
+		g.assumeGlobal(and(not(app("tnode", n)), not(app("astlist", n))))
+	}
 	return n
 }
 
